@@ -458,8 +458,12 @@ def oracle(ctx: Ctx, H, A, S, thorough: bool) -> None:
         did = A.hex_id_to_dev_id(hx)
         if not thorough:
             ctx.case(("id", hx), True, "id-hex")
-        if A.dev_id_to_hex_id(did) != hx or A.Address.convert_to_hex(A.Address.convert_from_hex(hx)) != hx:
-            ctx.violation("id-hex-roundtrip", "6-hex id does not round trip", {"hex": hx, "id": did})
+        try:
+            back = (A.dev_id_to_hex_id(did), A.Address.convert_to_hex(A.Address.convert_from_hex(hx)))
+        except Exception as err:  # noqa: BLE001
+            back = (f"raises {type(err).__name__}", None)
+        if back != (hx, hx):
+            ctx.violation("id-hex-roundtrip", "6-hex id does not round trip", {"hex": hx, "id": did, "encoded_back": list(back)})
             break
         if thorough:
             seen_ids.add(did)
